@@ -10,11 +10,13 @@ import (
 	"bytes"
 	"encoding/hex"
 	"fmt"
+	"io"
 	"runtime"
 	"runtime/metrics"
 	"strconv"
 	"strings"
 	"sync"
+	"testing/iotest"
 	"time"
 
 	"github.com/btcsuite/btcd/btcutil/v2"
@@ -464,6 +466,10 @@ func (P) Exec(line string) string {
 			return "err"
 		}
 		return hex.EncodeToString(w.Bytes())
+	case "mktx":
+		return execMkTx(f)
+	case "reuse":
+		return execReuse(f)
 	case "v2":
 		return execV2(f)
 	case "api":
@@ -811,6 +817,12 @@ func execAPI(f []string) string {
 		r = readRes{n: prim.n}
 		r.msg, r.payload, r.err = wire.ReadMessage(bytes.NewReader(b), pver, net)
 		agree = agree && sameRead(prim, r, pver)
+		// the adversarial but legal transport: one byte per Read, data together with EOF, half reads
+		for _, wrap := range []func(io.Reader) io.Reader{iotest.OneByteReader, iotest.DataErrReader, iotest.HalfReader} {
+			var r3 readRes
+			r3.n, r3.msg, r3.payload, r3.err = wire.ReadMessageWithEncodingN(wrap(bytes.NewReader(b)), pver, net, wire.BaseEncoding)
+			agree = agree && sameRead(prim, r3, pver)
+		}
 		if len(b) >= 16 {
 			rd2 := bytes.NewReader(b[16:])
 			var r2 readRes
@@ -1174,4 +1186,183 @@ func execAddCap(kind string) string {
 		return try(int(wire.VerifConstsC08()["maxTxPerBlock"]), func() error { return m.AddTxHash(&h) })
 	}
 	return "bad-op"
+}
+
+// ---------------------------------------------------------------- constructor-built values, reuse of one value
+
+func shapeBytes(s string) []byte {
+	switch s {
+	case "n":
+		return nil
+	case "-":
+		return []byte{}
+	}
+	return mustHex(s)
+}
+
+func execMkTx(f []string) string {
+	ver, _ := strconv.ParseUint(f[2], 10, 32)
+	lock, _ := strconv.ParseUint(f[3], 10, 32)
+	t := &wire.MsgTx{Version: int32(uint32(ver)), LockTime: uint32(lock)}
+	switch f[4] {
+	case "n":
+	case "e":
+		t.TxIn = []*wire.TxIn{}
+	default:
+		for _, is := range strings.Split(f[4], ";") {
+			p := strings.Split(is, ":")
+			var h chainhash.Hash
+			copy(h[:], mustHex(p[0]))
+			idx, _ := strconv.ParseUint(p[1], 10, 32)
+			seq, _ := strconv.ParseUint(p[3], 10, 32)
+			in := &wire.TxIn{PreviousOutPoint: wire.OutPoint{Hash: h, Index: uint32(idx)}, SignatureScript: shapeBytes(p[2]), Sequence: uint32(seq)}
+			switch p[4] {
+			case "n":
+			case "e":
+				in.Witness = wire.TxWitness{}
+			default:
+				for _, it := range strings.Split(p[4], ".") {
+					in.Witness = append(in.Witness, shapeBytes(it))
+				}
+			}
+			t.TxIn = append(t.TxIn, in)
+		}
+	}
+	switch f[5] {
+	case "n":
+	case "e":
+		t.TxOut = []*wire.TxOut{}
+	default:
+		for _, os := range strings.Split(f[5], ";") {
+			p := strings.Split(os, ":")
+			v, _ := strconv.ParseUint(p[0], 10, 64)
+			t.TxOut = append(t.TxOut, &wire.TxOut{Value: int64(v), PkScript: shapeBytes(p[1])})
+		}
+	}
+	before := dumpTx(t)
+	ser := serTx(t)
+	var nw bytes.Buffer
+	t.SerializeNoWitness(&nw)
+	id, wid := t.TxHash(), t.WitnessHash()
+	cp := "eq"
+	if c := t.Copy(); !bytes.Equal(serTx(c), ser) || c.TxHash() != id || dumpTx(c) != before || intList(c.PkScriptLocs()) != intList(t.PkScriptLocs()) {
+		cp = "differs"
+	}
+	util := "agree"
+	u := btcutil.NewTx(t)
+	if *u.Hash() != id || *u.WitnessHash() != wid || u.HasWitness() != t.HasWitness() || *u.Hash() != id {
+		util = "DISAGREE"
+	}
+	rt := "err"
+	var d wire.MsgTx
+	rd := bytes.NewReader(ser)
+	if err := d.Deserialize(rd); err == nil && rd.Len() == 0 {
+		rt = "differs"
+		if dumpTx(&d) == before {
+			rt = "ok"
+		}
+	}
+	if dumpTx(t) != before {
+		return "input-mutated"
+	}
+	return fmt.Sprintf("ser=%s nw=%s size=%d/%d hw=%s locs=%s txid=%s wtxid=%s copy=%s util=%s rt=%s",
+		hex.EncodeToString(ser), hex.EncodeToString(nw.Bytes()), t.SerializeSize(), t.SerializeSizeStripped(), b01(t.HasWitness()),
+		intList(t.PkScriptLocs()), hex.EncodeToString(id[:]), hex.EncodeToString(wid[:]), cp, util, rt)
+}
+
+// execReuse: one decoded value is encoded again and again (both encodings, sequentially and from concurrent
+// goroutines, with the size/hash accessors called in between); every result must be the same and the value and
+// the input bytes must be unchanged afterwards.
+func execReuse(f []string) string {
+	kind := f[2]
+	pv, _ := strconv.ParseUint(f[3], 10, 32)
+	pver := uint32(pv)
+	b := mustHex(f[4])
+	in := append([]byte{}, b...)
+	mm, _, ok := emptyOf(kind)
+	if !ok {
+		return "bad-op"
+	}
+	dec := wire.BaseEncoding
+	if kind == "tx" || kind == "block" {
+		dec = wire.WitnessEncoding
+	}
+	buf := bytes.NewBuffer(in)
+	var err error
+	switch v := mm.(type) {
+	case *wire.BlockHeader:
+		err = v.BtcDecode(buf, pver, dec)
+	case wire.Message:
+		err = v.BtcDecode(buf, pver, dec)
+	}
+	if err != nil {
+		return "err"
+	}
+	rest := buf.Len()
+	encode := func(e wire.MessageEncoding) string {
+		var w bytes.Buffer
+		var err error
+		switch v := mm.(type) {
+		case *wire.BlockHeader:
+			err = v.BtcEncode(&w, pver, e)
+		case wire.Message:
+			err = v.BtcEncode(&w, pver, e)
+		}
+		if err != nil {
+			return "err"
+		}
+		return hx(w.Bytes())
+	}
+	d0 := dump(mm, pver)
+	w0, b0 := encode(wire.WitnessEncoding), encode(wire.BaseEncoding)
+	stable := "stable"
+	touch := func() {
+		switch v := mm.(type) {
+		case *wire.MsgTx:
+			_ = v.SerializeSize()
+			_ = v.TxHash()
+			_ = v.PkScriptLocs()
+		case *wire.MsgBlock:
+			_ = v.SerializeSizeStripped()
+			_ = v.BlockHash()
+			_, _ = v.TxHashes()
+		}
+	}
+	for k := 0; k < 3; k++ {
+		touch()
+		if encode(wire.BaseEncoding) != b0 || encode(wire.WitnessEncoding) != w0 {
+			stable = "unstable-seq"
+		}
+	}
+	var wg sync.WaitGroup
+	bad := make([]bool, 8)
+	for g := 0; g < 8; g++ {
+		wg.Add(1)
+		go func(g int) {
+			defer wg.Done()
+			for k := 0; k < 20; k++ {
+				touch()
+				e, want := wire.BaseEncoding, b0
+				if (g+k)%2 == 0 {
+					e, want = wire.WitnessEncoding, w0
+				}
+				if encode(e) != want {
+					bad[g] = true
+				}
+			}
+		}(g)
+	}
+	wg.Wait()
+	for _, x := range bad {
+		if x {
+			stable = "unstable-conc"
+		}
+	}
+	if dump(mm, pver) != d0 {
+		stable = "value-mutated"
+	}
+	if !bytes.Equal(in[:len(b)], b) {
+		stable = "input-mutated"
+	}
+	return fmt.Sprintf("ok %s w=%s b=%s %d %s", d0, w0, b0, rest, stable)
 }
